@@ -6,8 +6,8 @@ of the loop here).  Each returns None or "<short id>: <explanation>"."""
 import re
 from common import unhx, hx
 
-TOPIC_SHAPE = re.compile(rb"^projects/([^/]*)/topics/(.*)$", re.S)
-SUB_SHAPE = re.compile(rb"^projects/([^/]*)/subscriptions/(.*)$", re.S)
+TOPIC_SHAPE = re.compile(rb"^projects/([^/]+)/topics/(.+)$", re.S)      # both ids non-empty (Names.v, fix 271dfb1)
+SUB_SHAPE = re.compile(rb"^projects/([^/]+)/subscriptions/(.+)$", re.S)
 
 
 def _b(tok):
@@ -334,13 +334,53 @@ def mon_ack_final(ops, lines):
     return None
 
 
+def mon_nack_immediate(ops, lines):
+    """C05 (N = 0 is an immediate nack): a ModifyAckDeadline with 0 seconds that names a delivery handed out less than
+    10 s of virtual time ago (so its lease certainly runs) and not acknowledged or modified since puts the message back
+    AT ONCE: a Pull with room issued as the very next request returns it."""
+    h = History(ops, lines)
+    if h.bad:
+        return None
+    live = {}          # (sub, ack id hex) -> (message id, time delivered)
+    evs = h.events
+    for n, ev in enumerate(evs):
+        ot, k = ev["op"], ev["op"][0]
+        for d in ev.get("msgs", []):
+            live[(d.sub, d.ack)] = (d.mid, ev["t"])
+        if k == "ACK" and ev["code"] == "0":
+            for a in ev.get("ids", []):
+                live.pop((ot[1], a), None)
+        if k == "MOD" and ev["code"] == "0":
+            ids = ev.get("ids", [])
+            nacked = []
+            if ot[2] == "0":
+                for a in ids:
+                    if (ot[1], a) in live and ev["t"] - live[(ot[1], a)][1] < 10 * 10 ** 9:
+                        nacked.append(live[(ot[1], a)][0])
+            for a in ids:
+                live.pop((ot[1], a), None)
+            if nacked and n + 1 < len(evs):
+                nx = evs[n + 1]
+                if nx["op"][0] == "PULL" and nx["op"][1] == ot[1] and nx["code"] == "0" and nx["op"][3] == "1":
+                    got = [d.mid for d in nx.get("msgs", [])]
+                    room = len(got) < min(int(nx["op"][2]), 1000) if nx["op"][2].isdigit() and int(nx["op"][2]) > 0 else False
+                    missing = [m for m in nacked if m not in got]
+                    if room and missing:
+                        return ("C05-nack-not-immediate: ModifyAckDeadline(0) at op %d named the running delivery of message %r; "
+                                "the Pull issued right after it (op %d, with room for more) does not return that message"
+                                % (ev["i"], unhx(missing[0]), nx["i"]))
+        if k in ("SS", "SO", "SR", "BG", "SEQ", "XC", "DS", "CS"):
+            live.clear()
+    return None
+
+
 def mon_deadline(ops, lines):
     """C04/C05 (never earlier): same reading as mon_exclusive's lease window; (not later): in the probe
     streams a PULL with room, issued >= deadline + 101 ms, must return the message."""
     w = mon_exclusive(ops, lines)
     if w and w.startswith("C03-double-lease"):
         return "C04-early-redelivery" + w[len("C03-double-lease"):]
-    return None
+    return mon_nack_immediate(ops, lines)
 
 
 def mon_payload(ops, lines):
@@ -606,7 +646,7 @@ def mon_walk(ops, lines):
     w = mon_list_args(ops, lines)
     if w:
         return w
-    return _mon_walk(ops, lines)
+    return _mon_walk(ops, lines) or mon_creation_order(ops, lines)
 
 
 def _mon_walk(ops, lines):
@@ -971,6 +1011,8 @@ def mon_push(ops, lines):
                     return ("C14-post-after-accept: message %r was POSTed again to %r after the endpoint had answered %s"
                             % (unhx(mid), unhx(sub), accepted[key]))
                 seen_now.add(key)
+                if ans.startswith("slow"):
+                    ans = ans[4:]       # answered after 11 s - within the ack deadline of the cases that use it
                 if ans in ACCEPT:
                     accepted[key] = ans
                     pending.pop(key, None)
@@ -1010,6 +1052,15 @@ def mon_racing_namespace(ops, lines):
                         % (a[0], unhx(name), b[1]))
             if a[1] not in ("0", "5"):
                 return "C10-delete-status: racing %s answered %s" % (a[0], a[1])
+        if a[0] == "CS" and a[1] not in ("0", "6") and any(x.startswith("BG ") and " SEQ DT " in x for x in ops):
+            # a create racing the deletion of its topic may find the topic gone - then the name must not exist
+            if a[1] != "5":
+                return ("C10-create-status: CreateSubscription racing the deletion of its topic answered status %s (a create "
+                        "answers OK, ALREADY_EXISTS, or NOT_FOUND for the topic)" % a[1])
+            if b[1] != "5":
+                return ("C10-failed-create-left-name: CreateSubscription of %r answered NOT_FOUND (its topic was being deleted) "
+                        "and the same client's next Get finds the subscription" % unhx(name))
+            continue
         if a[0] in ("CS", "CT"):
             creates.setdefault((a[0], name), []).append(a[1])
             if a[1] in ("0", "6") and b[1] != "0":
@@ -1204,12 +1255,25 @@ def mon_namespace(ops, lines):
                 if ot[2] not in topics:
                     return "C10-absent-ok: CreateSubscription on the absent topic %r succeeded at op %d" % (unhx(ot[2]), i)
                 n[0] += 1
-                subs[ot[1]] = {"topic": ot[2], "inst": topics[ot[2]], "order": n[0]}
+                subs[ot[1]] = {"topic": ot[2], "inst": topics[ot[2]], "order": n[0], "ep": rt[5] if len(rt) > 5 else "~"}
             elif code == "6" and ot[1] not in subs:
                 return ("C10-phantom: CreateSubscription %r answered ALREADY_EXISTS at op %d but no such subscription "
                         "exists" % (unhx(ot[1]), i))
             elif code == "5" and ot[2] in topics:
                 return "C10-present-notfound: CreateSubscription on the live topic %r answered NOT_FOUND at op %d" % (unhx(ot[2]), i)
+        elif k == "REG" and rt[0] == "REG" and len(rt) > 1 and rt[1].isdigit():
+            # the push registry holds exactly the live push subscriptions (a deleted one receives nothing further: C11, C14)
+            cnt = int(rt[1])
+            reg = {rt[2 + 2 * j]: rt[3 + 2 * j] for j in range(cnt)}
+            want = {nm: v["ep"] for nm, v in subs.items() if v.get("ep", "~") != "~"}
+            for nm in reg:
+                if nm not in want:
+                    return ("C11-registered-after-delete: the push registry still holds %r (endpoint %r) at op %d although no such "
+                            "push subscription exists - whatever is created under that name next is pushed there"
+                            % (unhx(nm), unhx(reg[nm]), i))
+            for nm in want:
+                if nm not in reg:
+                    return "C14-not-registered: the push subscription %r exists at op %d and is not in the push registry" % (unhx(nm), i)
         elif k in ("GS", "DS", "PULL", "STATS"):
             present = ot[1] in subs
             if code not in ("0", "5"):
@@ -1358,4 +1422,106 @@ def mon_create_delete_race(ops, lines):
                 return ("C01-not-delivered: %r exists and is listed by its topic, yet the message published at op %d "
                         "(id %r) is not among the %d messages a Pull with room returns at op %d"
                         % (unhx(ot[1]), last_pub[0], unhx(last_pub[1]), len(msgs), i))
+    return None
+
+
+def mon_creation_order(ops, lines):
+    """C13 while other requests are in flight: every answer of a List call names resources in the order in which
+    they were created (the creates of these cases are issued one after the other), none twice."""
+    order, created = {}, [0]
+    for i, (o, r) in enumerate(zip(ops, lines)):
+        ot, rt = o.split(" "), r.split(" ")
+        if r.startswith("!"):
+            return "C13-noanswer: op %d (%s) got %s" % (i, ot[0], r[:60])
+        if ot[0] in ("CT", "CS") and rt[1:2] == ["0"]:
+            created[0] += 1
+            order[ot[1]] = created[0]
+        elif ot[0] in ("BG", "SEQ", "XC") and any(x in ot for x in ("CT", "CS")):
+            return None        # creates in flight together: their order is not the issue order
+        elif ot[0] in ("LT", "LS", "LTS") and rt[1:2] == ["0"]:
+            n = int(rt[2])
+            step = 4 if ot[0] == "LS" else 1
+            names = [rt[3 + step * q] for q in range(n)]
+            idx = [order.get(x) for x in names]
+            if None in idx:
+                continue
+            if len(set(names)) != len(names):
+                return "C13-duplicate: %s at op %d lists a resource twice: %r" % (ot[0], i, [unhx(x) for x in names])
+            if idx != sorted(idx):
+                return ("C13-creation-order: %s at op %d "
+                        "answers %r - not the order in which they were created" % (ot[0], i, [unhx(x) for x in names]))
+    return None
+
+
+def mon_exists_attached(ops, lines):
+    """C16 / C11: a subscription that GetSubscription finds is listed by its topic and counts what is published."""
+    found, before = {}, {}
+    for i, (o, r) in enumerate(zip(ops, lines)):
+        ot, rt = o.split(" "), r.split(" ")
+        if r.startswith("!"):
+            return "C16-wedged: op %d (%s) got %s" % (i, ot[0], r[:60])
+        if ot[0] == "GS" and rt[1:2] == ["0"]:
+            found[rt[2]] = rt[3]
+        elif ot[0] == "LTS" and rt[1:2] == ["0"] and ot[3] == "-" and rt[-1] == "-":
+            names = set(rt[3:3 + int(rt[2])])
+            for sub, topic in found.items():
+                if topic == ot[1] and sub not in names:
+                    return ("C16-half-created: subscription %r exists and names topic %r, but the topic does not list it "
+                            "(op %d)" % (unhx(sub), unhx(topic), i))
+        elif ot[0] == "STATS" and rt[1:2] == ["0"]:
+            tot = int(rt[2]) + int(rt[3])
+            if ot[1] in before and before[ot[1]][2] is not None:
+                b, topic, pub = before[ot[1]]
+                if topic == rt[4] and tot != b + pub:
+                    return ("C16-wedged-subscription: %r exists on %r and held %d messages; %d more were published to that "
+                            "topic and it holds %d (op %d)" % (unhx(ot[1]), unhx(rt[4]), b, pub, tot, i))
+            before[ot[1]] = (tot, rt[4], 0)
+        elif ot[0] == "PUB" and rt[1:2] == ["0"]:
+            for k2, (b, topic, pub) in list(before.items()):
+                if topic == ot[1]:
+                    before[k2] = (b, topic, pub + int(ot[2]))
+        elif ot[0] in ("PULL", "ACK", "MOD", "ADV", "DS", "DT"):
+            before.clear()
+    return None
+
+
+def mon_blocking_empty(ops, lines):
+    """C15: a Pull without return_immediately answers with no messages only when its wait limit (300 s) has run out."""
+    h = History(ops, lines)
+    if h.bad:
+        return "C15-" + h.bad
+    started = {}
+    for ev in h.events:
+        ot, rt = ev["op"], ev["res"]
+        if ot[0] == "BG" and ot[2:3] == ["PULL"] and ot[5:6] == ["0"]:
+            started[ot[1]] = (ev["t"], ev["i"], ot[3])
+        elif ot[0] == "JOIN" and ot[1] in started and rt[2:] != ["-"]:
+            t0, at, sub = started.pop(ot[1])
+            if rt[2:5] == ["PULL", "0", "0"] and ev["t"] - t0 < 299 * 10 ** 9:
+                return ("C15-empty-blocking-pull: the Pull without return_immediately started at op %d on %r has answered "
+                        "with no messages by op %d, %.1f s after it started (its wait limit is 300 s)"
+                        % (at, unhx(sub), ev["i"], (ev["t"] - t0) / 1e9))
+    return None
+
+
+def mon_control_shape(ops, lines):
+    """C17: a follow-up StreamingPull message whose modify-deadline ids and seconds differ in number is answered with
+    INVALID_ARGUMENT (the stream ends with it) and changes nothing."""
+    for i, (o, r) in enumerate(zip(ops, lines)):
+        ot, rt = o.split(" "), r.split(" ")
+        if r.startswith("!"):
+            return "C17-noanswer: op %d (%s) got %s" % (i, ot[0], r[:60])
+        if ot[0] == "SS" and rt[1:2] == ["1"]:
+            na = int(ot[5])
+            nm = int(ot[6 + na])
+            ns = int(ot[7 + na + nm])
+            if nm != ns:
+                for j in range(i + 1, len(ops)):
+                    oj, rj = ops[j].split(" "), lines[j].split(" ")
+                    if oj[0] == "SR" and oj[1] == ot[1]:
+                        if rj[-1] != "3":
+                            return ("C17-inconsistent-accepted: the control message at op %d carries %d modify-deadline ids and %d "
+                                    "seconds; the stream %s instead of ending with INVALID_ARGUMENT (op %d)"
+                                    % (i, nm, ns, "is still open" if rj[-1] == "-" else "ended with status " + rj[-1], j))
+                        break
     return None
